@@ -40,7 +40,17 @@ Inductive case :=
   (** one upstream from NewUpstream("udp://127.0.0.1:port"), a UDP and a TCP
       server on that port ([listening] = false: the TCP port refuses), a
       sequence of queries *)
-| CSession (listening : bool) (steps : list (step_in * step_out)).
+| CSession (listening : bool) (steps : list (step_in * step_out))
+  (** "the same server": NewUpstream(url, Opt{DialAddr: dial}) with several
+      harness servers (UDP + TCP each) at [servers] (host text, port); every
+      UDP reply has flag byte [b2]; [want] = index of the server DialAddr (or,
+      without it, the url) designates.  Observed: which servers got the UDP
+      query, which servers got a TCP query (in order), what the caller got:
+      (0, i) server i's UDP reply, (1, i) server i's TCP reply, (2, _) an
+      error, (3, _) NewUpstream failed, (4, _) panic; [intact] = the reply has
+      the caller's id and question *)
+| CDial (url dial : list N) (servers : list (list N * N)) (b2 want : N)
+        (udp_at tcp_at : list N) (res : N * N) (intact : bool).
 
 (** ** Messages *)
 
@@ -112,6 +122,30 @@ Fixpoint agree_steps (first : bool) (ms : list step_obs) (os : list step_out) : 
   | _, _ => false
   end.
 
+Fixpoint find_server (i : N) (a : list N * N) (servers : list (list N * N)) : option N :=
+  match servers with
+  | [] => None
+  | s :: t => if list_eqb N.eqb (fst a) (fst s) && (snd a =? snd s) then Some i
+              else find_server (i + 1) a t
+  end.
+
+Definition agree_dial (url dial : list N) (servers : list (list N * N)) (b2 : N)
+                      (udp_at tcp_at : list N) (res : N * N) (intact : bool) : bool :=
+  match udp_upstream_dials url dial with
+  | None => fst res =? 3
+  | Some d =>
+    match find_server 0 (d_udp d) servers, find_server 0 (d_tcp d) servers with
+    | Some iu, Some it =>
+      list_eqb N.eqb udp_at [iu] && intact &&
+      match msg_truncated [0; 0; b2] with
+      | Some true => list_eqb N.eqb tcp_at [it] && pair_eqb res (1, it)
+      | Some false => list_eqb N.eqb tcp_at [] && pair_eqb res (0, iu)
+      | None => false
+      end
+    | _, _ => false
+    end
+  end.
+
 Definition agree (c : case) : bool :=
   match c with
   | CTrunc n seed b2 obs =>
@@ -122,6 +156,8 @@ Definition agree (c : case) : bool :=
   | CSession listening steps =>
     agree_steps true (run_session listening sess0 (map (fun p => to_step (fst p)) steps))
                 (map snd steps)
+  | CDial url dial servers b2 want udp_at tcp_at res intact =>
+    agree_dial url dial servers b2 udp_at tcp_at res intact
   end.
 
 (** ** spec: the property's own reading of the observation, on raw bytes
@@ -185,6 +221,13 @@ Definition spec (c : case) : bool :=
   | CPack h packed obs =>
     option_eqb Bool.eqb obs (Some (h_tc h)) && Bool.eqb (tc_of (nth 2 packed 0)) (h_tc h)
   | CSession listening steps => spec_steps listening true 0 steps
+    (* TC reply => exactly one TCP query, at the server that sent that reply,
+       and the caller gets that server's TCP answer; no TC => that server's
+       UDP answer and no TCP query anywhere *)
+  | CDial url dial servers b2 want udp_at tcp_at res intact =>
+    list_eqb N.eqb udp_at [want] && intact &&
+    if tc_of b2 then list_eqb N.eqb tcp_at udp_at && pair_eqb res (1, want)
+    else list_eqb N.eqb tcp_at [] && pair_eqb res (0, want)
   end.
 
 (** ** non-trivial: TC set somewhere, a flag byte other than the plain
@@ -202,4 +245,5 @@ Definition nontrivial (c : case) : bool :=
   | CTrunc n _ b2 _ => (n <? 4) || tc_of b2 || negb (plain b2)
   | CPack h _ _ => h_tc h || negb (plain (flags_hi h))
   | CSession _ steps => existsb (fun p => step_nontrivial (fst p)) steps
+  | CDial _ dial _ b2 _ _ _ _ _ => nonempty dial || tc_of b2
   end.
